@@ -92,7 +92,7 @@ theorem dirInv_makeUnit (s s' : RegState) (c : Nat) (sym : String) (defn : Optio
     (isRef : Bool) (uid : Nat) (h : s.makeUnit c sym defn isRef = .ok (s', uid)) (hI : DirInv s) :
     DirInv s' ∧ uid = s.units.length ∧ s'.units.length = s.units.length + 1 ∧
     (∀ w, w < s.units.length → s'.unit w = s.unit w) ∧ s'.clsMap = s.clsMap := by
-  obtain ⟨huid, hunits, hsym, hcls, _, hsymMap, hnot, _, hclasses, hclsMap, _, htm⟩ :=
+  obtain ⟨huid, hunits, hsym, hcls, _, hsymMap, hnot, _, hclasses, hclsMap, _, htm, _, _⟩ :=
     makeUnit_effect s c sym defn isRef s' uid h
   have hlen : s'.units.length = s.units.length + 1 := by rw [hunits]; simp
   have hold : ∀ w, w < s.units.length → s'.unit w = s.unit w := by
